@@ -101,8 +101,8 @@ CHECKS = {
     design="4 C17"),
  "C20": dict(engine="E5",
     technique="deterministic step counting through the walk hooks on every call-graph tile composed in series and on amplified families; wall clock in child processes",
-    text="Every DAG tile on <=4 helpers with per-edge multiplicity/call form, repeated 8x/16x in series, every chain/diamond/fan-in/fan-out family at depths up to 64 (290 functions) with each call form at each placement context, and nested/wide type families are generated with a step budget of 8*E*(F+C+1) function visits and 8*G*(T+M+1) type visits enforced by the hook; amplified members are also timed in child processes without hooks.",
-    note="Trusted: the verif-hooks points at the top of the two recursive walks; wall clock part decides alone if they disappear.",
+    text="Every DAG tile on <=4 helpers with per-edge multiplicity/call form, repeated 8x/16x in series, every chain/diamond/fan-in/fan-out family at depths up to 64 (290 functions) with each call form at each placement context, and nested/wide type families and statement-shape families inside one function (else-if chains, nested if/else/loop/for/switch/blocks up to size 60) are generated with step budgets of 8*E*(F+C+1) function visits, 8*E*(B+1) block visits and 8*G*(T+M+1) type visits enforced by the hooks; amplified members are also timed in child processes without hooks.",
+    note="Trusted: the verif-hooks points in the three recursive walks (functions, blocks, types); wall clock part decides alone if they disappear.",
     design="4 C20"),
 }
 
